@@ -10,8 +10,8 @@ commit "capacity check does not let a static delivery compensate a dynamic picku
 
 The executable model `C06.hasDemandViolation` works on vectors; `hasDemandViolation_dim1` shows that for
 one dimension it is exactly `viol1`. For more dimensions the operations are component-wise and the
-property is the conjunction over dimensions — that lifting is NOT proved here (stated as the remaining
-part of `cap_sound`); it is covered by the correspondence runs with two dimensions.
+property is the conjunction over dimensions — that lifting is proved in `VrpProofs/C06CapVec.lean`
+(`cap_sound_vec`).
 -/
 set_option linter.unusedSimpArgs false
 set_option linter.unnecessarySimpa false
